@@ -21,6 +21,10 @@ RULES = {
                   'a function of |x| only; Max generator base step 2 and 15 steps; CStepGenerator count equals its docstring formula',
     'R-OPTIONS': 'use_exact_steps guards make_exact of base step and ratio; check_num_steps guards the lower bound on num_steps; '
                  'num_extrap is added only when num_steps is None; radial / spiral path selects the ratio; an unknown path raises ValueError',
+    'R-ZEROFILTER': 'zero steps are dropped: every step a generator yields was itself compared with zero before the yield (a product '
+                    'base_step * step_ratio**k can vanish by underflow although the base step does not, so a test of the base step '
+                    'alone is not the documented filter); abstract run with base step and ratio of unknown sign, every comparison '
+                    'with zero recorded',
     'R-ENOUGH': 'for every (method, n, order) the default generator chosen by Derivative and explicit default Min/Max generators '
                 'give the finite difference rule enough steps: the abstract run of _derivative_nonzero_order does not raise',
 }
@@ -120,7 +124,7 @@ def run(ctx):
         '(with end-to-end runs of Derivative) that every default configuration gets enough steps. The table default_scale '
         'has no specification other than the code and is not checked.')
     rep.assume('step_ratio > 1, base_step > 0')
-    mins = {'R-CLOSEDFORM': 12, 'R-STEPORDER': 8, 'R-DEFAULTS': 8, 'R-OPTIONS': 8, 'R-ENOUGH': 60}
+    mins = {'R-CLOSEDFORM': 12, 'R-STEPORDER': 8, 'R-DEFAULTS': 8, 'R-OPTIONS': 8, 'R-ZEROFILTER': 4, 'R-ENOUGH': 60}
     for rid, text in RULES.items():
         rep.rule(rid, text, mins[rid])
     sg = ctx.repo.module('step_generators')
@@ -128,6 +132,7 @@ def run(ctx):
     closed_form(ctx, sg, lim)
     defaults(ctx, sg, lim)
     options(ctx, sg, lim)
+    zero_filter(ctx, sg, lim)
     enough(ctx)
     rep.notes['trusted_base'] = ['python ast', 'ndverif abstract interpreter']
 
@@ -346,6 +351,53 @@ def options(ctx, sg, lim):
         rep.check(exc.exc_name == 'ValueError', 'R-OPTIONS', 'limits.CStepGenerator.__init__', lim.relpath,
                   {'path': 'zigzag', 'raised': exc.exc_name}, 'ValueError for an unknown path', 'path=zigzag',
                   key='path-unknown')
+
+
+def zero_filter(ctx, sg, lim):
+    rep = ctx.rep
+    from ..ndarr import Unk
+    cases = [('step_generators', 'BasicMaxStepGenerator', dict(base_step=Poly.sym('hb'), step_ratio=Poly.sym('rb'), num_steps=3), ()),
+             ('step_generators', 'BasicMinStepGenerator', dict(base_step=Poly.sym('hb'), step_ratio=Poly.sym('rb'), num_steps=3), ()),
+             ('step_generators', 'BasicMaxStepGenerator', dict(base_step=Poly.sym('hb'), step_ratio=Poly.sym('rb'), num_steps=2, offset=-2), ()),
+             ('step_generators', 'MinStepGenerator', dict(base_step=Poly.sym('hb'), step_ratio=Poly.sym('rb'), num_steps=3), (Poly.sym('xb'),)),
+             ('step_generators', 'MaxStepGenerator', dict(base_step=Poly.sym('hb'), step_ratio=Poly.sym('rb'), num_steps=3), (Poly.sym('xb'),))]
+    for modname, cls, kw, args in cases:
+        tested = []
+
+        def oracle(interp, node, fr, value):
+            if isinstance(value, Unk):
+                for c in value.comparisons():
+                    if c[1] in ('>', '!=') and ndarr.concrete_real(c[3]) == 0:
+                        tested.append(repr(c[2]))
+                    elif c[1] in ('<', '!=') and ndarr.concrete_real(c[2]) == 0:
+                        tested.append(repr(c[3]))
+                return True
+            return None
+        models = Models()
+        I = Interp(ctx.repo, models, branch_oracle=oracle)
+        models.bind(I)
+        saved = set(ndarr.POSITIVE_ATOMS)
+        ndarr.POSITIVE_ATOMS.clear()             # signs unknown: the comparisons with zero stay undetermined and reach the oracle
+        label = '%s(%s)' % (cls, ', '.join('%s=%r' % kv for kv in sorted(kw.items())))
+        try:
+            gen = I.get_global(modname, cls)(**kw)
+            steps = list(gen(*args))
+            untested = []
+            for st in steps:
+                for v in (st.items() if isinstance(st, Arr) else [st]):
+                    if repr(ndarr.s_abs(v)) not in tested and repr(v) not in tested:
+                        untested.append(repr(v)[:60])
+            rep.check(bool(steps) and not untested, 'R-ZEROFILTER', '%s.%s.__call__' % (modname, cls), sg.relpath,
+                      {'steps': len(steps), 'compared_with_zero': tested[:4], 'yielded_without_a_test': untested[:3]},
+                      'each yielded step was compared with zero', label, key='zero filter')
+        except InterpRaise as exc:
+            rep.violation('R-ZEROFILTER', '%s.%s.__call__' % (modname, cls), sg.relpath, {'raises': exc.exc_name, 'message': exc.msg[:100]},
+                          'steps', label, key='zero filter raises')
+        except AnalysisError as exc:
+            rep.undecided('R-ZEROFILTER', '%s.%s.__call__' % (modname, cls), exc, label)
+        finally:
+            ndarr.POSITIVE_ATOMS.clear()
+            ndarr.POSITIVE_ATOMS.update(saved)
 
 
 def enough(ctx):
